@@ -2205,7 +2205,7 @@ func (c *Ctx) checkCloseAll(r *Report, ro *Roles) {
 			}
 		}
 	}
-	r.Floor("file-holding fields", n, 3)
+	r.Floor("file-holding fields", n, 1)
 }
 
 // closingHelperArg: the call goes to a function of the module that closes one of its *os.File parameters on every
